@@ -80,6 +80,14 @@ def _pull_thread(p):
 
 
 def to_coq(case, o):
+    if case.get('lines'):
+        parks = C.coq_list([f'({C.coq_nat(d)}, {C.coq_nat(t)})' for d, t in o['parks']])
+        nlines = min(4000, sum(1 for t in o['trace'] if t[1] == 'line'))
+        return (f"CaseL {_cfg(case)} {C.coq_bool(case['src'] == 'iterable')} {C.coq_nat(nlines)} "
+                f"{RES.get(o['result'], 3)} "
+                f"{C.coq_list([C.coq_nat(x) for x in o['consumed']])} {_out(o['outcome'])} "
+                f"{C.coq_bool(o['joined'])} {C.coq_nat(o['threads_left'])} {C.coq_nat(o['nworkers'])} "
+                f"{_pull_thread(o['pulls_on'])} {parks}")
     tr = []
     for n, op, cons, en, due in o['trace']:
         tr.append(f"Dc {_who(n)} {GATE.get((n, op), 9)} {C.coq_nat(cons)} {C.coq_bool('c' in en)} "
@@ -95,6 +103,9 @@ def to_coq(case, o):
 
 def explain_exprs(case, o):
     lit = to_coq(case, o)
+    if case.get('lines'):
+        return [f"let s := run {_cfg(case)} (canon {_cfg(case)}) in (Bridge.consumed s, cst s, worker_alive s)",
+                f"(agree ({lit}), ok ({lit}))"]
     return [f"match {lit} with Case c gated limit tr _ _ _ _ _ _ _ _ _ => "
             f"let '(g, s) := replay c gated limit (init c) tr in "
             f"(g, Bridge.consumed s, cst s, wp s, worker_alive s, ticks s) end",
@@ -202,10 +213,29 @@ def _rand_case(rnd, nmax=6):
               rseed=rnd.randrange(1 << 30), stay=rnd.choice([0.0, 0.3, 0.6, 0.85]))
 
 
+def _line_case(rnd, nmax=4):
+    """source-line granularity: every line of the bridge functions is a scheduling point"""
+    c = _rand_case(rnd, nmax)
+    if c['src'] in ('list', 'range'):
+        c['src'] = 'iterator'
+    if c['fn'] == 'a' and rnd.random() < 0.35:          # both bridges about equally often
+        c['fn'], c['src'] = 's', rnd.choice(SYNC_KINDS)
+        c['wloop'] = rnd.choice([None, 'gv'])
+    # mostly fast producers (so that both threads are runnable and lines really interleave)
+    if rnd.random() < 0.6:
+        c['dur'] = [0] * len(c['dur'])
+    c['lines'] = True
+    c['stay'] = rnd.choice([0.3, 0.6, 0.85, 0.95])
+    return c
+
+
 def gen_random(tier, seed):
     rnd = random.Random(seed * 7919 + 16)
     n = 1500 if tier == 'quick' else 30000
-    return [_rand_case(rnd) for _ in range(n)]
+    out = [_rand_case(rnd) for _ in range(n)]
+    rnd2 = random.Random(seed * 6007 + 1616)
+    out += [_line_case(rnd2) for _ in range(800 if tier == 'quick' else 12000)]
+    return out
 
 
 def gen_search(tier, seed):
@@ -215,6 +245,7 @@ def gen_search(tier, seed):
         for s in GN.explore(b, limit=300):
             out.append(dict(b, sched=s))
     out += [_rand_case(rnd, 7) for _ in range(3000)]
+    out += [_line_case(rnd, 3) for _ in range(4000)]
     return out
 
 
@@ -260,7 +291,7 @@ def shrink_candidates(case):
 def distribution(cases, obs):
     d = dict(to_async_iter=0, to_sync_iter=0, inline=0, threaded=0, with_failure=0, fail_at_0=0, base_exception=0,
              explicit_schedule=0, random_schedule=0, with_durations=0, worker_loop_gated=0,
-             decisions=0, consumer_steps=0, worker_steps=0, elements=0, special_elements=0,
+             line_level=0, line_decisions=0, decisions=0, consumer_steps=0, worker_steps=0, elements=0, special_elements=0,
              outcome_stop=0, outcome_raised=0, max_len=0, parks_with_ticks=0)
     for k in ASYNC_THREADED + ASYNC_INLINE + SYNC_KINDS:
         d['src_' + k] = 0
@@ -268,6 +299,7 @@ def distribution(cases, obs):
         d['to_async_iter' if c['fn'] == 'a' else 'to_sync_iter'] += 1
         d['src_' + c['src']] += 1
         d['inline' if (c['fn'] == 'a' and c['src'] in NONITER) else 'threaded'] += 1
+        d['line_level'] += bool(c.get('lines'))
         d['with_failure'] += c.get('fail') is not None
         d['fail_at_0'] += c.get('fail') == 0
         d['base_exception'] += bool(c.get('ekind'))
@@ -279,6 +311,7 @@ def distribution(cases, obs):
         d['max_len'] = max(d['max_len'], len(c['xs']))
         if isinstance(o, dict) and 'trace' in o:
             d['decisions'] += len(o['trace'])
+            d['line_decisions'] += sum(1 for t in o['trace'] if t[1] == 'line')
             d['consumer_steps'] += sum(1 for t in o['trace'] if t[0] == 'c')
             d['worker_steps'] += sum(1 for t in o['trace'] if t[0] == 'w')
             if o.get('outcome'):
@@ -293,8 +326,12 @@ RULE = ('case = (bridge function, source kind, element identities, failure posit
         'the consuming loop; exhaustive layer: every schedule of the implementation\'s own decision tree for sources of '
         'length 0..3 (4 thorough) x every failure position x all source kinds x duration patterns; random layer: '
         'length 0..6, elements from None/0/\'\'/False/()/0.0/duplicates/an equal-to-everything object/an exception '
-        'instance/a falsy object, durations from a grid, random schedules.  non-trivial (decided in Coq) = threaded '
-        'bridge, non-empty source, the consumer ran between two worker steps')
+        'instance/a falsy object, durations from a grid, random schedules; line-level layer (part of the random '
+        'layer): random schedules at SOURCE-LINE granularity (sys.settrace makes every line of to_async_iter / '
+        'to_sync_iter and their nested functions a scheduling point of its thread; a timed Queue.get may also expire '
+        'early, at most twice per run), compared with the model on the schedule-independent final observation only.  '
+        'non-trivial (decided in Coq) = threaded bridge, non-empty source, the consumer ran between two worker steps '
+        '(line-level: at least 4 line-level decisions)')
 EXHAUSTIVE_NOTE = ('all schedules (stateless DFS over the controller\'s enabled sets) for every source of length <= 3 '
                    '(quick) / <= 4 (thorough), every failure position, every source kind')
 ASSUMPTIONS = [
@@ -326,12 +363,12 @@ LEVEL_TEXT = ('Both bridges are modelled as one small-step two-party machine (co
               '(to_async_iter over an Iterator: Tick enabled whenever the worker is inside the source), no_deadlock, '
               'measure_exact (measure = exact number of remaining non-Tick steps, 4n+11 / 3n+8 / n+2 initially) and '
               'bridge_terminates (every schedule of fair rounds reaches Done within measure(init) rounds), plus monitor_sound, '
-              'monitor_complete (ok accepts every finished model run) and agree_implies_ok. Tied to /repo by running the real '
-              'to_async_iter / to_sync_iter under gated threads on every schedule of short sources (exhaustive) and random longer '
-              'ones, the model being driven by the same thread choices and compared gate by gate inside Coq.')
-LEVEL_NOTE = ('trusted: Coq kernel + vm_compute; no axioms (all 11 theorems closed under the global context); the gated-thread '
+              'monitor_complete (ok accepts every finished model run), agree_implies_ok and canonical_schedule_finishes. Tied to /repo by running the real '
+              'to_async_iter / to_sync_iter under gated threads on every schedule of short sources (exhaustive), random longer '
+              'ones and random source-line-level interleavings, the model being driven by the same thread choices and compared gate by gate inside Coq.')
+LEVEL_NOTE = ('trusted: Coq kernel + vm_compute; no axioms (all 12 theorems closed under the global context); the gated-thread '
               'harness and Case_C16.v; asyncio/queue/concurrent.futures primitives are modelled and validated only by the '
-              'correspondence runs. The model is untimed: "does not block the loop" is proved as Tick-enabledness; the ticker '
+              'correspondence runs; line-level runs are compared with the model only on the final observation (agree for CaseL). The model is untimed: "does not block the loop" is proved as Tick-enabledness; the ticker '
               'counts in virtual time are a monitor check on the implementation (ticks >= d-1 during a pull of d ticks), not a '
               'theorem. Fairness in bridge_terminates is explicit (rounds containing W, D and C).')
 TECHNIQUE = ('Coq proof (inductive invariant over all schedules of a two-thread small-step machine; exact step-count measure + '
